@@ -354,8 +354,50 @@ class Chunks(Harness):
                     key='C14/jakes/chunks:' + (bad[0][0] if bad else ''),
                     detail=dict(cfg=cfg, Fd=Fd, Ts=Ts, bad=bad))
 
+    def _big_probe(self):
+        """requests far beyond the symbolic bound (n up to 1e5, positions up
+        to 1e7 samples) through the public API, against the Jakes formula"""
+        from pysym.runner import ConcreteViolation
+        jk = repo_module(FG)
+        for (Fd, Ts, plan) in (
+                (40.0, 1e-4, [('g', 50000), ('g', 10), ('g', 16384),
+                              ('g', 16385), ('g', 3)]),
+                (200.0, 1e-3, [('s', 6000000), ('g', 10), ('g', 100000),
+                               ('g', 2)]),
+                (7.0, 1e-5, [('g', 100000), ('s', 123457), ('g', 65537),
+                             ('g', 1)])):
+            g = jk.JakesSampleGenerator(Fd, Ts, 8, (2, ),
+                                        RS=np.random.RandomState(11))
+            phi, psi = g._phi_l, g._psi_l
+            k = 1
+            for op, n in plan:
+                if op == 's':
+                    g.skip_samples_for_next_generation(n)
+                    k += n
+                    continue
+                g.generate_more_samples(n)
+                h = g.get_samples()
+                if h.shape != (2, n):
+                    raise ConcreteViolation(
+                        'C14/jakes/big-request:shape',
+                        dict(Fd=Fd, Ts=Ts, plan=plan, got=h.shape))
+                t = (k + np.arange(n)) * Ts
+                ref = math.sqrt(1.0 / 8) * np.sum(np.exp(
+                    1j * (2 * np.pi * Fd * np.cos(phi) * t + psi)), axis=0)
+                tol = 1e-6 + 2 * np.pi * Fd * (k + n) * Ts * 2e-9
+                err = float(np.max(np.abs(h - ref)))
+                if err > tol:
+                    raise ConcreteViolation(
+                        'C14/jakes/big-request:value',
+                        dict(Fd=Fd, Ts=Ts, plan=plan, at_sample=k, n=n,
+                             max_error=err))
+                k += n
+        return 3
+
     def concrete(self, cfg, rng):
         """differential: chunked vs one-shot through the public API"""
+        if cfg['L'] == 1 and cfg['shape'] is None and cfg['seq'] == ['g1']:
+            return self._big_probe()
         jk = repo_module(FG)
         L, shape = cfg['L'], cfg['shape']
         shape_t = tuple(shape) if shape is not None else None
